@@ -34,6 +34,14 @@ MUTANTS = [
      "            THEN [Quiet(s, Done) EXCEPT !.setbuf = Upd(s.setbuf, KeyOf(m), [ack |-> m.ack, p |-> m.p, sup |-> FALSE])]",
      "            THEN [Quiet(s, Done) EXCEPT !.setbuf = IF KeyOf(m) \\in DOMAIN s.setbuf THEN s.setbuf ELSE Upd(s.setbuf, KeyOf(m), [ack |-> m.ack, p |-> m.p, sup |-> FALSE])]",
      "MC_ledger", "MC_ledger.cfg", {"MaxDepth = 4": "MaxDepth = 3"}, "LedgerInv|Refines|LedgerStepProps"),
+    ("a request is written although one is outstanding (seen by the request-rule refinement)", "MySensorsCore.tla",
+     "        ask == Is2x(s.proto) /\\ IsMissing(b.out) /\\ m.n \\notin b.asked",
+     "        ask == Is2x(s.proto) /\\ IsMissing(b.out)",
+     "MC_presrule", "MC_presrule.cfg", {"MaxDepth = 4": "MaxDepth = 3"}, "RuleInv|Refines|RuleStepProps"),
+    ("a failed request counts as sent (seen by the request-rule refinement)", "MySensorsCore.tla",
+     "         asked  |-> IF presOk THEN b.asked \\cup {m.n} ELSE b.asked,",
+     "         asked  |-> IF ask THEN b.asked \\cup {m.n} ELSE b.asked,",
+     "MC_presrule", "MC_presrule.cfg", {"MaxDepth = 4": "MaxDepth = 3"}, "RuleInv|Refines|RuleStepProps"),
     ("allocate node count + 1 (seen by the id-rule refinement)", "MySensorsCore.tla",
      "    IF hint.has THEN {hint.id} ELSE {i \\in 0..MaxNodeId : IdValid(s, i)}",
      "    IF hint.has THEN {hint.id} ELSE {Cardinality(DOMAIN s.nodes) + 1}",
